@@ -6,7 +6,7 @@ from mc.ref import refhost
 
 PROP = "C16"
 
-SCHEMES = ["http://", "https://", "HTTP://", "", "//", "ftp://", "://", "http:/", "http//", "mailto:", "x" * 65 + "://", "wss://"]
+SCHEMES = ["http://", "https://", "HTTP://", "", "//", "ftp://", "://", "http:/", "http//", "mailto:", "x" * 65 + "://", "wss://", "http://http://", "https:////", "http://ftp://", "http://www//"]
 AUTHS = ["", "u@", "u:p@", "u p@"]
 HOSTS = ["a.com", "a.notatld", "localhost", "1.2.3.4", "999.1.1.1", "a_b.com", "-a.com", "a.c", "a.co", "xn--tlrama-bvab.fr",
          "télérama.fr", "a.com.", "localhost.foo", "a", "[::1]", "A.COM", "a..com", "a.xn--p1ai", "a.рф", "localhostx.com",
